@@ -594,6 +594,8 @@ def classify_escape(e, texts, hints):
                 continue
             if pred and pred.startswith('hint:') and pred[5:] not in hints:
                 continue
+            if kid == 'known:setqualifier-retry-or-deletequalifier-CIMError-not-translated' and 'setq-other-code' in hints:
+                continue
             return kid
     return 'escape-%s-in-%s' % (tname, prod)
 
@@ -1606,7 +1608,11 @@ def f_repository(env):
                                 return '%d instances after a compile that reported success, expected %d' % (
                                     len(repo.view_instances(ns)), want)
                             return None
-                        kind, x, ns = case(env, 'repository', (variant, op, idx, code, scn), mof, ns=ns, hints={'repo'},
+                        # the recorded defect (raw CIMError from the retry) exists only after a first SetQualifier
+                        # rejection with INVALID_NAMESPACE (3) or NOT_SUPPORTED (7): any other first code must give
+                        # a MOFRepositoryError
+                        hts = {'repo'} | ({'setq-other-code'} if op == 'SetQualifier' and code not in (3, 7) else set())
+                        kind, x, ns = case(env, 'repository', (variant, op, idx, code, scn), mof, ns=ns, hints=hts,
                                            on_ok=on_ok, extra=dict(plan=repr(plan), scenario=scn))
                         fired = list(repo.fired)
                         repo.arm(None)
